@@ -591,13 +591,13 @@ Proof.
     rewrite (parse_body_head _ (127 :: _) 3 Indef _ eq_refl). unfold parse_after. cbn [major_of].
     unfold encode_chunks. rewrite parse_until_break_rt by (apply chunks_rt; [lia|exact Hok]). reflexivity.
   - (* array *)
-    apply andb_true_iff in Hok as [Hl Hall]. apply N.ltb_lt in Hl. cbn [item_depth] in Hd.
+    apply andb_true_iff in Hok as [Hl Hall]. cbn [item_depth] in Hd.
     assert (HF : Forall (rt_elem (parse_item f) encode_item) xs).
     { rewrite forallb_forall in Hall. rewrite Forall_forall in IH. apply Forall_forall. intros x Hin. split.
       - intros rest'. apply IH; [exact Hin|apply Hall, Hin|]. pose proof (depth_in x xs Hin). lia.
       - apply encode_item_starts. }
     destruct d.
-    + rewrite <- app_assoc. rewrite (parse_body_head _ _ _ _ _ (decode_encode_head 4 _ _ Hl)).
+    + apply N.ltb_lt in Hl. rewrite <- app_assoc. rewrite (parse_body_head _ _ _ _ _ (decode_encode_head 4 _ _ Hl)).
       unfold parse_after. cbn [major_of].
       rewrite guard_true by (apply Forall_forall; intros; apply encode_item_ne).
       unfold len at 1. rewrite Nat2N.id.
@@ -606,7 +606,7 @@ Proof.
       rewrite (parse_body_head _ (159 :: _) 4 Indef _ eq_refl). unfold parse_after. cbn [major_of].
       rewrite parse_until_break_rt by exact HF. reflexivity.
   - (* map *)
-    apply andb_true_iff in Hok as [Hl Hall]. apply N.ltb_lt in Hl. cbn [item_depth] in Hd.
+    apply andb_true_iff in Hok as [Hl Hall]. cbn [item_depth] in Hd.
     change (flat_map _ kvs) with (flat_map encode_pair kvs).
     assert (HF : Forall (rt_elem (parse_pair (parse_item f)) encode_pair) kvs).
     { rewrite forallb_forall in Hall. rewrite Forall_forall in IH. apply Forall_forall. intros [k v] Hin.
@@ -618,7 +618,7 @@ Proof.
       - unfold encode_pair. destruct (encode_item_starts k) as [b [t [E Hb]]]. rewrite E.
         exists b, (t ++ encode_item v). split; [reflexivity|exact Hb]. }
     destruct d.
-    + rewrite <- app_assoc. rewrite (parse_body_head _ _ _ _ _ (decode_encode_head 5 _ _ Hl)).
+    + apply N.ltb_lt in Hl. rewrite <- app_assoc. rewrite (parse_body_head _ _ _ _ _ (decode_encode_head 5 _ _ Hl)).
       unfold parse_after. cbn [major_of].
       rewrite guard_true by (eapply Forall_impl; [|exact HF]; intros x [_ Hs]; apply starts_ok_ne, Hs).
       unfold len at 1. rewrite Nat2N.id.
